@@ -198,7 +198,12 @@ func geom2Shp(g geom.Geom) (shp.Shape, error) {
 	case geom.Polygon:
 		return geom2polygon(g.(geom.Polygon)), nil
 	case *geom.Bounds:
-		return geom2polygon(g.(*geom.Bounds).Polygons()[0]), nil
+		// The rectangle is written with its closing corner. (Left to
+		// geom2polygon, a box of zero height would not get one, because its
+		// first and fourth corners already coincide.)
+		ring := g.(*geom.Bounds).Polygons()[0][0]
+		ring = append(ring[:len(ring):len(ring)], ring[0])
+		return geom2polygon(geom.Polygon{ring}), nil
 	case geom.LineString:
 		return geom2polyLine(geom.MultiLineString{g.(geom.LineString)}), nil
 	case geom.MultiLineString:
